@@ -65,6 +65,20 @@ class NetworkXPropertyGraphDisjoint(NetworkXPropertyGraph):
         """
         raise RuntimeError("Not implementable with this backend.")
 
+    def update_nodes_property(self, *, prop_name: str, prop_val) -> None:
+        """
+        Update a selected property on all nodes of the graph. Every graph lives in a store entry of
+        its own here, so giving the graph another GraphID (what e.g. rollback() of a combined model
+        does with a snapshot) has to move the entry along, or no graph object finds the nodes again.
+        Re-keying onto an id that is in use would need a common store, like merge_nodes.
+        """
+        rekey = prop_name == ABCPropertyGraph.GRAPH_ID and prop_val != self.graph_id
+        if rekey and len(self.storage.get_graph(prop_val).nodes) > 0:
+            raise RuntimeError("Not implementable with this backend.")
+        super().update_nodes_property(prop_name=prop_name, prop_val=prop_val)
+        if rekey:
+            self.storage.move_graph(self.graph_id, prop_val)
+
     def graph_exists(self) -> bool:
         """
         Does the graph with this ID exist?
@@ -149,6 +163,15 @@ class NetworkXGraphStorageDisjoint:
                     self.graphs[graph_id].clear()
             except Exception as e:
                 raise e
+            finally:
+                self.lock.release()
+
+        def move_graph(self, graph_id: str, new_graph_id: str) -> None:
+            # the graph (and its id counter) is known under another id from now on
+            self.lock.acquire()
+            try:
+                self.graphs[new_graph_id] = self.graphs.pop(graph_id)
+                self.graph_node_ids[new_graph_id] = self.graph_node_ids.pop(graph_id, 1)
             finally:
                 self.lock.release()
 
